@@ -81,6 +81,9 @@ def norm(t, depth=0):
         return norm(a[0], d)
     if op == "proj":
         e = a[1]
+        if e[0] == "f" and e[1] == 0 and a[0].op == "bin" and a[0].args[0].endswith("WithOverflow"):
+            o, x, y, ty = a[0].args   # value component of a checked primitive operation (the overflow flag is asserted separately)
+            return norm(Term("bin", o[: -len("WithOverflow")], x, y, ty), d)
         if e[0] == "f":
             base = norm(a[0], d)
             if base[0] == "agg" and isinstance(e[1], int) and e[1] < len(base[3]) and e[2] is None:
@@ -146,7 +149,13 @@ def norm(t, depth=0):
         return norm(a[0], d)
     if op == "bin":
         o, x, y, ty = a
-        if o in ("Add", "Mul", "BitAnd", "BitOr", "BitXor", "Eq", "Ne"):
+        if o == "Add":
+            return ("+",) + tuple(sorted((norm(x, d), norm(y, d)), key=repr))
+        if o == "Mul":
+            return ("*",) + tuple(sorted((norm(x, d), norm(y, d)), key=repr))
+        if o == "Sub":
+            return ("-", norm(x, d), norm(y, d))
+        if o in ("BitAnd", "BitOr", "BitXor", "Eq", "Ne"):
             return (o,) + tuple(sorted((norm(x, d), norm(y, d)), key=repr))
         return (o, norm(x, d), norm(y, d))
     if op == "un":
@@ -183,8 +192,10 @@ def show(n, depth=0):
         return "arg%d" % n[1]
     if k == "fld":
         return "%s.%s" % (show(n[1]), n[2])
-    if k in ("+", "*"):
+    if k in ("+", "*", "-"):
         return "(%s %s %s)" % (show(n[1]), k, show(n[2]))
+    if k == "Rem":
+        return "(%s %% %s)" % (show(n[1]), show(n[2]))
     if k == "slice":
         return "%s[%s .. %s]" % (show(n[1]), show(n[2]), show(n[3]))
     if k == "slice_from":
